@@ -528,8 +528,140 @@ impl Space for AddAfterLoad {
     }
 }
 
+// ------------------------------------------------------------------------------------------------
+// protection settings, field by field: every SUBSET of the 13 workbook-protection fields (each with its own value, so
+// that a field written from its neighbour shows), and every single field / pair of fields of the sheet protection
+const BOOK_FIELDS: [&str; 13] = ["workbookAlgorithmName", "workbookHashValue", "workbookSaltValue", "workbookSpinCount", "workbookPassword", "revisionsAlgorithmName", "revisionsHashValue", "revisionsSaltValue", "revisionsSpinCount", "revisionsPassword", "lockRevision", "lockStructure", "lockWindows"];
+const SHEET_FIELDS: [&str; 21] = ["algorithmName", "hashValue", "saltValue", "spinCount", "password", "sheet", "objects", "deleteRows", "insertColumns", "deleteColumns", "insertHyperlinks", "autoFilter", "scenarios", "formatCells", "formatColumns", "insertRows", "formatRows", "pivotTables", "selectLockedCells", "selectUnlockedCells", "sort"];
+fn set_book_field(p: &mut WorkbookProtection, k: usize) {
+    match k {
+        0 => p.set_workbook_algorithm_name("SHA-512"),
+        1 => p.set_workbook_hash_value("d29ya2Jvb2toYXNo"),
+        2 => p.set_workbook_salt_value("d29ya2Jvb2tzYWx0"),
+        3 => p.set_workbook_spin_count(100000),
+        4 => p.set_workbook_password_raw("CC1A"),
+        5 => p.set_revisions_algorithm_name("SHA-256"),
+        6 => p.set_revisions_hash_value("cmV2aXNpb25zaGFzaA=="),
+        7 => p.set_revisions_salt_value("cmV2aXNpb25zc2FsdA=="),
+        8 => p.set_revisions_spin_count(50000),
+        9 => p.set_revisions_password_raw("DD2B"),
+        10 => p.set_lock_revision(true),
+        11 => p.set_lock_structure(true),
+        _ => p.set_lock_windows(true),
+    };
+}
+fn set_sheet_field(p: &mut SheetProtection, k: usize) {
+    match k {
+        0 => p.set_algorithm_name("SHA-384"),
+        1 => p.set_hash_value("c2hlZXRoYXNo"),
+        2 => p.set_salt_value("c2hlZXRzYWx0"),
+        3 => p.set_spin_count(12345),
+        4 => p.set_password_raw("EE3C"),
+        5 => p.set_sheet(true),
+        6 => p.set_objects(true),
+        7 => p.set_delete_rows(true),
+        8 => p.set_insert_columns(true),
+        9 => p.set_delete_columns(true),
+        10 => p.set_insert_hyperlinks(true),
+        11 => p.set_auto_filter(true),
+        12 => p.set_scenarios(true),
+        13 => p.set_format_cells(true),
+        14 => p.set_format_columns(true),
+        15 => p.set_insert_rows(true),
+        16 => p.set_format_rows(true),
+        17 => p.set_pivot_tables(true),
+        18 => p.set_select_locked_cells(true),
+        19 => p.set_select_unlocked_cells(true),
+        _ => p.set_sort(true),
+    };
+}
+#[derive(Clone)]
+enum PCase {
+    Book(u32),
+    Sheet(Vec<usize>),
+}
+struct ProtectionFields {
+    cases: Vec<PCase>,
+}
+impl ProtectionFields {
+    fn new() -> ProtectionFields {
+        let mut cases: Vec<PCase> = vec![];
+        let mut masks: Vec<u32> = (1..(1u32 << BOOK_FIELDS.len())).collect();
+        masks.sort_by_key(|m| (m.count_ones(), *m));
+        cases.extend(masks.into_iter().map(PCase::Book));
+        for a in 0..SHEET_FIELDS.len() {
+            cases.push(PCase::Sheet(vec![a]));
+        }
+        for a in 0..SHEET_FIELDS.len() {
+            for b in (a + 1)..SHEET_FIELDS.len() {
+                cases.push(PCase::Sheet(vec![a, b]));
+            }
+        }
+        cases.push(PCase::Sheet((0..SHEET_FIELDS.len()).collect()));
+        ProtectionFields { cases }
+    }
+}
+impl Space for ProtectionFields {
+    fn len(&self) -> u64 {
+        self.cases.len() as u64
+    }
+    fn describe(&self, i: u64) -> Value {
+        match &self.cases[i as usize] {
+            PCase::Book(m) => json!({"kind": "workbook-protection-fields", "fields_set": (0..BOOK_FIELDS.len()).filter(|k| m & (1 << k) != 0).map(|k| BOOK_FIELDS[k]).collect::<Vec<_>>()}),
+            PCase::Sheet(f) => json!({"kind": "sheet-protection-fields", "fields_set": f.iter().map(|k| SHEET_FIELDS[*k]).collect::<Vec<_>>()}),
+        }
+    }
+    fn tags(&self, i: u64) -> Vec<String> {
+        match &self.cases[i as usize] {
+            PCase::Book(m) => {
+                let n = m.count_ones();
+                let mut t = vec!["k:book-protection-fields".to_string()];
+                if n <= 2 {
+                    t.extend((0..BOOK_FIELDS.len()).filter(|k| m & (1 << k) != 0).map(|k| format!("field:{}", BOOK_FIELDS[k])));
+                } else {
+                    t.push("fields:3-or-more".into());
+                }
+                t
+            }
+            PCase::Sheet(f) => {
+                let mut t = vec!["k:sheet-protection-fields".to_string()];
+                if f.len() <= 2 {
+                    t.extend(f.iter().map(|k| format!("field:{}", SHEET_FIELDS[*k])));
+                } else {
+                    t.push("fields:all".into());
+                }
+                t
+            }
+        }
+    }
+    fn run(&self, i: u64, sink: &mut Sink) {
+        let tags = self.tags(i);
+        let case = self.describe(i);
+        let mut b = umya_spreadsheet::new_file();
+        b.get_sheet_mut(&0).unwrap().get_cell_mut("A1").set_value("x");
+        match &self.cases[i as usize] {
+            PCase::Book(m) => {
+                let p = b.get_workbook_protection_mut();
+                for k in 0..BOOK_FIELDS.len() {
+                    if m & (1 << k) != 0 {
+                        set_book_field(p, k);
+                    }
+                }
+            }
+            PCase::Sheet(f) => {
+                let p = b.get_sheet_mut(&0).unwrap().get_sheet_protection_mut();
+                for k in f {
+                    set_sheet_field(p, *k);
+                }
+            }
+        }
+        check(&b, i % 2 == 1, &tags, &case, sink);
+    }
+}
+
 pub fn space(tier: Tier, id: &str) -> Option<Box<dyn Space>> {
     match id {
+        "protection-fields" => Some(Box::new(ProtectionFields::new())),
         "add-after-load" => {
             let mut cases = vec![];
             for k1 in 0..KINDS.len() {
@@ -572,7 +704,7 @@ fn replay(tier: Tier, case: &Value) -> Vec<Violation> {
 }
 
 fn run(ctx: &Ctx) -> i32 {
-    let ids = ["kinds", "specials", "add-after-load"];
+    let ids = ["kinds", "specials", "add-after-load", "protection-fields"];
     let spaces = ids.iter().map(|id| (*id, space(ctx.tier, id).unwrap())).collect();
     run_e1(
         ctx,
